@@ -359,11 +359,13 @@ func init() {
 		gen: func(seed int64, idx int, tier string) (*media.Case, muxrun.Options) {
 			o := media.GenOpts{Profile: "long", MinSegments: 20, MaxSegments: 60, MaxWrites: 6000}
 			if tier == "thorough" {
-				o.MinSegments, o.MaxSegments, o.MaxWrites = 50, 400, 40000
+				// (50-400 rotations x 16 workers peaked at 58 GB of the 62 GB of this machine once the
+				// delta updates and the rounds inside rotations were added: bounded to 50-200)
+				o.MinSegments, o.MaxSegments, o.MaxWrites = 50, 200, 20000
 			}
 			return media.Gen(seed, idx, o), muxrun.Options{Light: true, RoundEvery: 4, Delta: true}
 		},
-		rule:        "long histories (20-60 rotations quick, 50-400 thorough; playlists observed after every rotation and every 4th write, Low-Latency: each followed by its _HLS_skip=YES delta update) in every variant; non-trivial = >= 3 published segments; window slides counted",
+		rule:        "long histories (20-60 rotations quick, 50-200 thorough; playlists observed after every rotation and every 4th write, Low-Latency: each followed by its _HLS_skip=YES delta update) in every variant; non-trivial = >= 3 published segments; window slides counted",
 		assumptions: stdAssumptions(),
 		floors:      map[string]int{"C04.streams_slid_2x": 20, "C04.hints_checked": 200, "cases.variant3": 5, "C04.delta_playlists_with_skipped_segments": 50},
 	})
